@@ -27,6 +27,7 @@ def reset():
     SNAPS.clear()
     ECHO.clear()
     CAL_LOG.clear()
+    COUNTER["n"] = 0
     BARRIER = None
     TRACE_FILE = os.environ.get("VPROBES_TRACE_FILE")
 
@@ -362,3 +363,20 @@ def cal_probe(detector, p0=None, p1=None, p2=None, p3=None, offset=0.0, noise=0.
     detector.pixel.array = frame.astype(float)
     detector.signal.array = (frame * 0.5).astype(float)
     detector.image.array = np.clip(np.abs(frame), 0, 60000).astype(np.uint16)
+
+
+COUNTER = {"n": 0}
+
+
+def fault_at_call(detector, n=None, token="tok", exc="ValueError", tag=None):
+    """Raise at the n-th call (counted over the whole process since reset); used for calibration fault sites."""
+    with _LOCK:
+        k = COUNTER["n"]
+        COUNTER["n"] = k + 1
+    _log({"kind": "fault_call", "tag": tag, "call": k, "thread": threading.get_ident()})
+    if n is not None and k == int(n):
+        if exc == "TwoArgError":
+            raise TwoArgError(token, 42)
+        raise {"ValueError": ValueError, "KeyError": KeyError, "RuntimeError": RuntimeError, "ZeroDivisionError": ZeroDivisionError,
+               "ProbeError": ProbeError, "TypeError": TypeError}[exc](token)
+    detector.pixel.array = detector.pixel.array + float(k % 7)
